@@ -6,7 +6,7 @@
    repairs), callback behaviour cb and n inputs, by ANY interleaving of the
    dispatcher, the workers and a context cancellation.  [pc s = DDone] = peach
    has returned.  [cancelled s = false] = no cancellation happened. *)
-From verif Require Import lib.Base model.C20_Peach model.C20 proofs.C20_proofs proofs.C20_rp_proofs proofs.C20_oracle_proofs proofs.C20_p1_proofs.
+From verif Require Import lib.Base model.C20_Peach model.C20 proofs.C20_proofs proofs.C20_rp_proofs proofs.C20_oracle_proofs proofs.C20_p1_proofs proofs.C20_acc_proofs.
 From Coq Require Import Permutation.
 Open Scope nat_scope.
 
@@ -104,6 +104,36 @@ Theorem C20_release_before_record_admits_extra_callback :
     /\ each_calls w_cb 3 1 = 0.
 Proof. exact release_before_record_admits_extra_callback. Qed.
 Print Assumptions C20_release_before_record_admits_extra_callback.
+
+(* BOUND-k GENERALISATION of "nothing starts after a break": with at most k
+   workers, for every schedule (no cancellation), the callback is never entered
+   for an input that has k or more breaking / failing inputs before it -- a
+   callback that broke or failed either still holds its slot or has set broken
+   before giving the slot back, and the dispatcher re-tests broken after Acquire.
+   [nbrk cb j] = number of inputs before j whose callback breaks or fails. *)
+Theorem C20_peach_no_start_after_k_breakers : forall c cb n k,
+  bound c = Some k -> fix_recheck c = true ->
+  forall s, reach c cb n s -> cancelled s = false ->
+  forall j, nbrk cb j >= k -> calls s j = 0.
+Proof. exact peach_no_start_after_k_breakers. Qed.
+Print Assumptions C20_peach_no_start_after_k_breakers.
+
+(* COMPLETENESS OF THE ACCEPTOR: every terminal outcome of every schedule of the
+   faithful model is accepted by [accepts_peach] -- the judge raises no false
+   "model and implementation disagree" alarm for a behaviour the model has.
+   The observation: per-input entry counts and output / errors when peach has
+   returned, and the number of running callbacks at ANY earlier moment s0 of the
+   same run (so also their maximum).  Bounds are >= 1 (parseNumWorkers). *)
+Theorem C20_accepts_peach_complete : forall ko cbs,
+  (forall k, ko = Some k -> 1 <= k) ->
+  forall s0 s,
+  reach (faithful ko) (cb_of cbs) (length cbs) s0 ->
+  steps (faithful ko) (cb_of cbs) (length cbs) s0 s ->
+  pc s = DDone -> cancelled s = false ->
+  accepts_peach ko cbs
+    (mkObs (map (calls s) (seq 0 (length cbs))) (running (length cbs) s0) (out s) (errs s) false) = true.
+Proof. exact accepts_peach_complete. Qed.
+Print Assumptions C20_accepts_peach_complete.
 
 (* each itself: it runs input i iff i < n and no earlier callback broke or failed *)
 Theorem C20_each_calls_spec : forall cb n i,
